@@ -1,8 +1,9 @@
 #include "simk.h"
 
-extern const struct driver drv_smoke;
+extern const struct driver drv_smoke, drv_c02;
 
 const struct driver *const all_drivers[] = {
 	&drv_smoke,
+	&drv_c02,
 	NULL,
 };
